@@ -254,6 +254,10 @@ pub struct SimKnobs {
     pub log_thin: u32,
     pub strategy: Strategy,
     pub sched_seed: u64,
+    /// every k-th control-flow edge executed by the parallel walrus build is a scheduling point
+    /// (SanitizerCoverage trace-pc-guard hook); 0 = edges are not scheduling points
+    #[serde(default)]
+    pub edge_thin: u32,
 }
 
 #[derive(Serialize, Deserialize, Clone, Debug, PartialEq, Eq)]
@@ -266,6 +270,9 @@ pub enum Strategy {
     Pct { depth: u8, horizon: u32 },
     /// always the lowest runnable task id (deterministic baseline)
     Lowest,
+    /// keep running the current task; at each scheduling point switch to a random other task with
+    /// probability 1/q (long uninterrupted stints, rare switches at arbitrary points)
+    Bursty { q: u32 },
 }
 
 /// The recorded decisions of one simulated schedule.
